@@ -40,5 +40,8 @@ if prev is not None and (prev.get("missed_at_first") or not prev.get("caught_by"
     meta["first_run_checks"] = prev.get("first_run_checks") or prev.get("checks_run_quick_tier")
 if prev is not None and prev.get("refreshed"):
     meta["refreshed"] = prev["refreshed"]
+if os.path.exists(os.path.join(dst, "OBSOLETE.txt")) and not meta["caught_by"] and not meta["confirmed_here"]["demo_fails_with_change"]:
+    # a later fix commit made the change harmless (the demo passes with it): kept for the record
+    meta["obsolete"] = open(os.path.join(dst, "OBSOLETE.txt")).read().strip()
 json.dump(meta, open(os.path.join(dst, "meta.json"), "w"), indent=1)
 print("kept", sid, "caught_by", meta["caught_by"])
